@@ -444,6 +444,32 @@ func probeOpMask(c *fw.Ctx, base *seam.MemStore, cfg v1x.Config, op *fop, univer
 					}
 					c.Obs("same_handle_followups", 1)
 				}
+				// the caller REPEATS the deletion / rollback on the same handle once the storage works
+				// again (what an application does with a reported, transient failure): if the repetition
+				// reports success, the store must reopen to the state after the operation
+				if (op.kind == "delto" || op.kind == "lfo") && len(c.Res.Violations) == 0 {
+					var rerr error
+					func() {
+						defer func() {
+							if r := recover(); r != nil {
+								rerr = fmt.Errorf("panic: %v", r)
+							}
+						}()
+						_, rerr = op.run(fr.tree)
+					}()
+					if rerr == nil {
+						for _, fast := range []bool{cfg.Fast, !cfg.Fast} {
+							avail, problem, pcls := judgeState(fr.store.Clone(), cfg, fast, op.new, universe)
+							if problem != "" {
+								c.Violate(idx, "fault|"+op.name+"|"+kind+"|repeated-ok-but-"+pcls, "%s: the operation reported the fault; repeated on the same handle (storage healthy again) it reported success, but reopening the store shows versions %v and: %s (expected the state after the operation, versions %v)", where, avail, problem, op.new.vers)
+								return
+							}
+						}
+						c.Obs("repeated_after_reported_fault_ok", 1)
+					} else {
+						c.Obs("repeated_after_reported_fault_failed_again(not_judged)", 1)
+					}
+				}
 			}
 		}
 	}
@@ -472,6 +498,7 @@ func init() {
 		Cases:       func(tier string) int { return tierN(tier, 160, 5000) },
 		CaseTimeout: 300e9,
 		Rule: "case = one history (10-36 ops; 1-8 keys; cache 0/3; fast index on/off; flush threshold 150..default). At up to 3 points of the history every public operation with an error result is first run fault-free on a fresh handle over a clone of the store with the storage wrapper numbering its storage calls, then re-run once per call index (all indices up to 100 per operation, evenly sampled beyond) with exactly that call failing (Get, Has, iterator creation, iterator step, batch Set/Delete/Write), plus 2 random multi-fault runs (p=0.08). " +
+			"After a deletion or rollback that reported its fault the same handle also REPEATS the operation with the storage healthy again: a repetition that reports success must leave a store that reopens to the state after the operation. " +
 			"Read operations: Get, Has, GetWithIndex, GetByIndex, GetVersioned, GetImmutable+Get/GetWithIndex, GetProof, GetVersionedProof, Iterate and Iterator (mutable and immutable, both directions), Export, TraverseStateChanges, LoadVersion, GetLatestVersion. Write operations: SaveVersion, DeleteVersionsTo, LoadVersionForOverwriting, Import (incl. one >20000-node import - three background batches - per 33 cases, for which every batch write is failed once). " +
 			"Oracle: an injected fault must end in an error, or in exactly the fault-free result (fallback paths are fine); a panic is a violation; a write operation during which a write call failed must not return success; after a faulted write operation a fresh tree on the store left behind must show the state before or after (C05 oracle: version set, every version readable on all paths), and exactly the new state if success was reported. " +
 			"evaluations = histories; faults_injected counts the faulted executions; distinct = hash(config, ops); non-trivial = >=200 faults injected in the case incl. >=1 write operation.",
